@@ -487,6 +487,53 @@ pub fn run(run: &Run) {
             }
             expect_error(run, "setters", i, "deserialize_json_to_execution_context", Some(""), json!({"json": doc}));
         }
+        // a document that names only SOME fields, read into the populated context
+        // through the C entry point and, into an equal context, through the Rust
+        // API: both must end up holding the same thing (what the document does not
+        // mention stays as it was)
+        {
+            use serde::de::DeserializeSeed;
+            let before = take_string(ffi::wirefilter_serialize_execution_context_to_json(&mut ctx).json);
+            let mut mirror = wirefilter::ExecutionContext::<()>::new(scheme);
+            let loaded = {
+                let mut de = serde_json::Deserializer::from_str(&before);
+                (&mut mirror).deserialize(&mut de).map_err(|e| e.to_string())
+            };
+            if let Err(e) = loaded {
+                run.violation("C20/context-json-of-the-c-api-not-readable-by-the-rust-api", "mirror", "setters", i, json!({"json": before.chars().take(400).collect::<String>(), "error": e}));
+            } else {
+                let vals = gen_ctx(&mut r, &w.env);
+                let mut part = serde_json::Map::new();
+                for (f, v) in w.env.fields.iter().zip(&vals) {
+                    if let (Some(v), true) = (v, r.chance(1, 4)) {
+                        part.insert(f.name.clone(), v.to_json());
+                    }
+                }
+                let doc = serde_json::to_string(&serde_json::Value::Object(part)).unwrap();
+                ffi::wirefilter_clear_last_error();
+                let ok_c = ffi::wirefilter_deserialize_json_to_execution_context(&mut ctx, doc.as_ptr(), doc.len());
+                let ok_r = {
+                    let mut de = serde_json::Deserializer::from_str(&doc);
+                    (&mut mirror).deserialize(&mut de).is_ok()
+                };
+                let after_c = take_string(ffi::wirefilter_serialize_execution_context_to_json(&mut ctx).json);
+                let after_r = serde_json::to_string(&mirror).unwrap_or_default();
+                l.evals += 1;
+                if ok_c != ok_r || after_c != after_r {
+                    run.violation(
+                        "C20/partial-document-into-populated-context/c-api-differs-from-rust-api",
+                        "mirror",
+                        "setters",
+                        i,
+                        json!({"document": doc.chars().take(300).collect::<String>(), "accepted_by_c_api": ok_c, "accepted_by_rust_api": ok_r,
+                               "context_before": before.chars().take(300).collect::<String>(),
+                               "after_c_api": after_c.chars().take(300).collect::<String>(), "after_rust_api": after_r.chars().take(300).collect::<String>()}),
+                    );
+                } else {
+                    l.count("partial_documents_mirrored");
+                }
+            }
+        }
         ffi::wirefilter_free_execution_context(ctx);
         drop(keep);
         run.distinct(hash_str(&format!("s{}", i)));
